@@ -1,5 +1,6 @@
 import Rfsm.Audit
 import Rfsm.Proofs.CodecNoPanic
+import Rfsm.Proofs.CodecLossy
 /-!
 # C05 — Binary `.rfsm` round trip preserves the model (and hence its behaviour)
 
@@ -108,6 +109,15 @@ theorem C05_str_counterexample (s : Str) (hl : s.length = 4096) (rest : List Nat
   rw [hb]
   simp [pStr, Prim.run, readStringS, readTypeAndSize, RState.init, readStrPayload, validUtf8]
 #assert_axioms C05_str_counterexample
+
+/-- exactly what is lost: a string of any length ≥ 16 comes back cut to `len mod 4096` bytes (when that
+cut is at a character boundary; otherwise the writer panics, next theorem) — with no error flagged -/
+theorem C05_str_lossy (s : Str) (h16 : 16 ≤ s.length) (hu : validUtf8 (s.take (s.length % 4096)) = true)
+    (rest : List Nat) :
+    pStr.run (RState.init ((Op.str s).bytes ++ rest)) =
+      (s.take (s.length % 4096), ⟨rest, true, 0xD0, 0, none⟩) :=
+  readString_lossy s h16 hu rest 0 0 none
+#assert_axioms C05_str_lossy
 
 /-- multi-byte text: when `len & 0x0FFF` falls inside a character the writer panics.  Witness: 2048 times
 `é` followed by `_` (4097 bytes; the slice end 4097 & 0x0FFF = 1 is inside the first `é`). -/
